@@ -235,7 +235,13 @@ impl Map64 {
         if addr > vm_layout().heap_end {
             return None;
         }
-        Some(addr >> vm_layout().space_shift_64())
+        let index = addr >> vm_layout().space_shift_64();
+        // The heap range may extend beyond the last space (e.g. the default 64-bit layout spans
+        // indices 1..=16 while only `MAX_SPACES` entries exist).  Such addresses are in no space.
+        if index >= MAX_SPACES {
+            return None;
+        }
+        Some(index)
     }
 
     fn is_space_start(base: Address) -> bool {
